@@ -17,7 +17,7 @@ LEVEL = "exploration"
 ENGINE = "E-prov"
 TECHNIQUE = ("deterministic simulation: ECC block wrap with the RNG and key generation behind seams (observed ephemeral "
              "scalar, forced edge draws, forced retry), independent device model (affine P-256 + bit-level AES) opens the "
-             "block; fault arm damages the point bytes in transit; thorough tier cross-checks ECDH with the openssl binary")
+             "block; fault arm damages the point bytes in transit; thorough tier cross-checks ECDH with the openssl binary; key-store decoys; two threads through one shared encryptor object under the deterministic thread scheduler")
 DESIGN_REF = "DESIGN.md section 6, C09"
 LEVEL_TEXT = ("seeded search over (selector, recipient scalar class, session-key class, ephemeral draw class, point damage); "
               "the clause about BALTECH's published keys is decided through the observed ephemeral scalar; sampling")
